@@ -36,6 +36,7 @@ INSTR = 'starlark/src/eval/bc/instr_impl.rs'
 STRT = 'starlark/src/values/types/string/str_type.rs'
 SMAP = 'starlark_map/src/small_map.rs'
 RNG = 'starlark/src/values/types/range/range_type.rs'
+EVALRS = 'starlark/src/eval.rs'
 RNGG = 'starlark/src/values/types/range/globals.rs'
 
 # (unit, file, old, new, expected obligation substring)
@@ -113,6 +114,9 @@ MUTANTS = [
     ('numcmp', NUM, 'float_hash(b.to_f64())', 'b.to_f64().to_bits() ^ 1', 'C09.hash64.pin'),
     ('prec', PRD, 'if self.peek() == Some(&Token::Not) && min_bp <= 5 {', 'if self.peek() == Some(&Token::Not) && min_bp <= 6 {', 'C06.pratt.parse_expr.not_prefix_level'),
     ('prec', PRD, 'if self.peek() == Some(&Token::Not) && min_bp <= 5 {', 'if self.peek() == Some(&Token::Not) {', 'C06.pratt.parse_expr.not_prefix_level'),
+    ('limits', EVALRS, '        let res = compiler.eval_module(cst, local_names);\n', '        let res = compiler.eval_module(cst, local_names);\n        self.run_infrequent_instr_checks()?;\n', 'C07.eval_module.depth_restored'),
+    ('limits', EVALRS, '        // Clean up the world, putting everything back\n        self.call_stack.pop();\n', '        // Clean up the world, putting everything back\n        if res.is_ok() { self.call_stack.pop(); }\n', 'C07.eval_module.depth_restored'),
+    ('limits', EVALRS, '        self.call_stack.push(Value::new_none(), None).unwrap();\n', '        self.call_stack.push(Value::new_none(), None).unwrap();\n        self.call_stack.push(Value::new_none(), None)?;\n', 'C07.eval_module.depth_restored'),
     ('calls', INSTR, '        eval.with_call_stack(self.to_value(), Some(location), |eval| {\n            self.invoke(args, eval)\n        })', '        self.invoke(args, eval)', 'bc_invoke'),
     ('calls', 'starlark/src/values/layout/value.rs', '        eval.with_call_stack(self, location, |eval| {\n            self.get_ref_full().invoke(args, eval)\n        })', '        self.get_ref_full().invoke(args, eval)', 'invoke_with_loc'),
     ('strindex', STRT, 'let ind = CharIndex(i.unsigned_abs() as usize);', 'let ind = CharIndex((-i) as usize);', 'at'),
